@@ -646,6 +646,7 @@ Qed.
 (* ================================================================================================ *)
 (* 7. conformers built from dictionaries: for dictionaries that hold exactly the atoms, in enumeration order, the code's
    loop produces the list model [to_conformers] (about which the round-trip theorems of RdkitProofs speak) *)
+Local Open Scope list_scope.
 Lemma set_pos_append ps p : set_pos ps (List.length ps) p = ps ++ [p].
 Proof. induction ps as [|q r IH]; cbn; [reflexivity | rewrite IH; reflexivity]. Qed.
 
